@@ -35,6 +35,9 @@ def setup_path():
     sys.path.insert(0, s)
     if VERIF not in sys.path:
         sys.path.insert(0, VERIF)
+    from . import instrument
+
+    instrument.install(s)
 
 
 def run_seed(base, idx):
